@@ -6,13 +6,14 @@ import (
 	"fmt"
 	"math/rand/v2"
 	"sort"
+	"strings"
 	"testing"
 	"testing/synctest"
 	"time"
 )
 
 // deploy-side hook points whose order defines the gaps a request step can fall into
-var c02Points = []string{"target.health.recorded", "deploy.healthy", "deploy.lb.updated", "deploy.installed", "target.drain.begin", "target.drain.end", "deploy.drained"}
+var c02Points = []string{"target.health.recorded", "target.health.notifying", "deploy.healthy", "deploy.lb.updated", "deploy.installed", "target.drain.begin", "target.drain.end", "deploy.drained"}
 
 type c02Scenario struct {
 	Idx       int             `json:"idx"`
@@ -53,7 +54,8 @@ func c02Gen(rng *rand.Rand, idx int, thorough bool) c02Scenario {
 		return sc
 	case 1: // rotation update held back: "healthy" is signalled long before the rotation is rebuilt
 		sc.Delays = uni(1)
-		sc.Delays[0] = 6 * c02Delta
+		sc.Delays[0] = 3 * c02Delta // after the probe result is recorded
+		sc.Delays[1] = 3 * c02Delta // just before the load balancer is told
 		sc.ReqDelays = rd(4)
 		return sc
 	case 2: // drain lasts (slow in-flight requests), so the begin..end gap is wide
@@ -268,7 +270,7 @@ func c02Run(t *testing.T, run *Run, sc c02Scenario) {
 				if h.Point != p || h.At < c.Issue || h.At > c.Ret {
 					continue
 				}
-				if p == "target.health.recorded" && !contains(gens[dep], h.Name) {
+				if strings.HasPrefix(p, "target.health.") && !contains(gens[dep], h.Name) {
 					continue
 				}
 				if first < 0 {
